@@ -54,17 +54,36 @@ func hostileStorage(t *rapid.T) map[common.Hash]common.Hash {
 		v, _ := new(big.Int).SetString(s, 10)
 		words = append(words, v)
 	}
+	pick := func(label string) *big.Int {
+		if chance(t, 40, label+".b") {
+			return boundaryWord(t, label)
+		}
+		return words[uniform(t, 0, len(words)-1, label)]
+	}
 	for i := 0; i < 6; i++ {
-		w := words[uniform(t, 0, len(words)-1, "hostw")]
-		st[common.BigToHash(big.NewInt(int64(0x7000+i)))] = common.BigToHash(w)
+		st[common.BigToHash(big.NewInt(int64(0x7000+i)))] = common.BigToHash(pick("hostw"))
 	}
 	for i := 0; i < 3; i++ {
-		st[common.BigToHash(big.NewInt(int64(0x1000+i)))] = common.BigToHash(words[uniform(t, 0, len(words)-1, "hostw2")])
+		st[common.BigToHash(big.NewInt(int64(0x1000+i)))] = common.BigToHash(pick("hostw2"))
 	}
 	if chance(t, 50, "hostrand") {
 		st[common.BigToHash(big.NewInt(int64(rapid.IntRange(0, 2).Draw(t, "hostrk"))))] = common.BytesToHash(rapid.SliceOfN(rapid.Byte(), 32, 32).Draw(t, "hostrv"))
 	}
 	return st
+}
+
+// boundaryWord: 2^k + d for the powers where a decoder changes representation
+// (length = word/2, so the uint64 boundary of a stored length is at 2^65) and the
+// deltas where "+31", "+32", "*2+1" style arithmetic wraps.
+func boundaryWord(t *rapid.T, label string) *big.Int {
+	k := pickInt(t, label+".k", 5, 6, 7, 8, 16, 20, 31, 32, 33, 62, 63, 64, 64, 65, 65, 65, 66, 127, 128, 255, 256)
+	d := pickInt(t, label+".d", -65, -64, -63, -62, -61, -33, -32, -31, -3, -2, -1, 0, 1, 2, 3, 31, 32, 33, 61, 62, 63, 64, 65)
+	w := new(big.Int).Lsh(big.NewInt(1), uint(k))
+	w.Add(w, big.NewInt(int64(d)))
+	if w.Sign() < 0 {
+		w.SetInt64(0)
+	}
+	return w.And(w, new(big.Int).Sub(new(big.Int).Lsh(big.NewInt(1), 256), big.NewInt(1)))
 }
 
 // hostileProbe: memory with a chosen length word, then ONE journal instruction
